@@ -29,6 +29,10 @@ def check(run: Run):
     rej = validate_traces(run, "ServerTrace.tla", {"Requests": tla_set(REQS), "MaxLen": 1000000}, ["OneReplyPerRequest"], trace, "server", max_reject=6)
     for x in rej:
         ev = x["event"]
+        if "cannot allocate memory" in json.dumps(ev):
+            # the process ran into its mlock / mapping limits (real secure memory, keys accumulate in the sidecar's caches): the
+            # harness is out of resources, which says nothing about the sidecar
+            raise Infra("the driver process exhausted its locked-memory / mapping limits: %s" % json.dumps(ev)[:300])
         seq = [e.get("r") for e in x["trace"] if e.get("e") == "req"]
         kind = "panic" if ev.get("panic") else ("reply-count" if ev.get("e") == "eof" else "response-class")
         run.findings.append({"kind": "%s at %s after %s" % (kind, ev.get("r", "eof"), "/".join(seq[:x["line_in_run"] - 1][-3:])),
